@@ -10,3 +10,12 @@ package protoprint
 //@   ensures fallbackKind: (se[i].sourceLocation.StartLine == 0 || se[j].sourceLocation.StartLine == 0) && se[i].typeOrder != se[j].typeOrder ==> result == (se[i].typeOrder < se[j].typeOrder)
 //@   ensures fallbackIndex: (se[i].sourceLocation.StartLine == 0 || se[j].sourceLocation.StartLine == 0) && se[i].typeOrder == se[j].typeOrder ==> result == (descIndex(se[i].descriptor) < descIndex(se[j].descriptor))
 //@   ensures byLine: se[i].sourceLocation.StartLine != 0 && se[j].sourceLocation.StartLine != 0 ==> result == (se[i].sourceLocation.StartLine < se[j].sourceLocation.StartLine)
+
+// Options of fields, oneofs and enum values are printed in the order of their qualified names: the
+// order handed over by optionreflect is only a partial one (extensions declared in different files tie
+// on their index, and ties come out in map iteration order), so the printed order must not depend on it.
+//@ func (*fileBuilder).optionsFor$1
+//@   ensures lt: result < 0 <==> i.qualifiedName < j.qualifiedName
+//@   ensures gt: result > 0 <==> i.qualifiedName > j.qualifiedName
+//@ func (*fileBuilder).optionsFor
+//@   ensures byname: result1 == nil ==> (forall a int, b int {result0[a], result0[b]} :: 0 <= a && a < b && b < len(result0) ==> result0[a].qualifiedName <= result0[b].qualifiedName)
